@@ -300,9 +300,11 @@ fn eval_hybrid_quantifier(
     variable: &str,
     child_evaluated: &GraphColoredVertices,
 ) -> GraphColoredVertices {
+    // the child's result must respect the (possibly restricted) domain of the `variable`
+    let child_in_domain = child_evaluated.intersect(graph_to_propagate.unit_colored_vertices());
     match operator {
-        HybridOp::Bind => eval_bind(graph, child_evaluated, variable),
-        HybridOp::Exists => eval_exists(graph, child_evaluated, variable),
+        HybridOp::Bind => eval_bind(graph, &child_in_domain, variable),
+        HybridOp::Exists => eval_exists(graph, &child_in_domain, variable),
         // evaluate `forall x in A. phi` as `not exists x in A. not phi`
         // do it directly there so that the domain for negations are handled correctly
         HybridOp::Forall => eval_neg(
